@@ -27,7 +27,7 @@ pub fn run(args: &Args, r: &mut Report) {
     ]);
     r.assume("policy / installer doubles respect their documented contracts (one install result per offered app, in response order)");
     r.assume("duplicate app ids inside one response are not generated (don't-care)");
-    let n = args.budget(8_000, 170_000);
+    let n = args.budget(40_000, 400_000);
     for i in 0..n {
         if args.skip(i) {
             continue;
